@@ -1,0 +1,25 @@
+//go:build verif
+
+// Package verifhook provides named schedule points for the external
+// verification harness. With the build tag off, At compiles to nothing.
+package verifhook
+
+import "sync/atomic"
+
+var hook atomic.Value // func(point string)
+
+// Set installs (or, with nil, removes) the function called at every schedule point.
+func Set(f func(point string)) {
+	if f == nil {
+		hook.Store((func(string))(nil))
+		return
+	}
+	hook.Store(f)
+}
+
+// At marks a schedule point.
+func At(point string) {
+	if f, _ := hook.Load().(func(string)); f != nil {
+		f(point)
+	}
+}
